@@ -65,11 +65,15 @@ Begin(c, m, clk) ==
   /\ txn = NoTxn /\ begun < MaxTxn /\ begun' = begun + 1
   /\ clk \in {clock - 1, clock, clock + 1} \cap (1..MaxClock)
   /\ clock' = clk
-  /\ LET t == BeginTidAt(clk) IN
-     /\ txn' = [owner |-> c, tid |-> t, phase |-> "begun", meta |-> m, staged |-> <<>>, resolved |-> {},
-                 undone |-> <<>>, onlyUndo |-> TRUE]
+  /\ LET t == BeginTidAt(clk)
+         \* FileStorage._begin refuses metadata longer than 65535 bytes - after the commit lock was
+         \* taken and the transaction registered, so the caller has to abort
+         bad == IsFile /\ m = "mlong"
+     IN
+     /\ txn' = [owner |-> c, tid |-> t, phase |-> IF bad THEN "failed" ELSE "begun", meta |-> m,
+                 staged |-> <<>>, resolved |-> {}, undone |-> <<>>, onlyUndo |-> TRUE]
      /\ lastTs' = IF IsFile THEN t ELSE lastTs
-  /\ res' = OK("begin")
+     /\ res' = IF bad THEN Out("begin", "FileStorageError") ELSE OK("begin")
   /\ UNCHANGED <<hist, maxOid, issued, obs>>
 
 Active(c) == InTxn(c) /\ txn.phase = "begun"
@@ -250,7 +254,7 @@ CloseReopen ==
   /\ res' = OK("reopen")
   /\ UNCHANGED <<hist, txn, clock, begun, obs>>
 
-SerialRange == 0..((MaxClock + 1) * K + MaxTxn)
+SerialRange == {0} \cup {c * K + b : c \in 1..(MaxClock + 1), b \in 0..(MaxTxn + 1)}   \* every tid the model can produce
 WrongCalls == {"store", "vote", "finish", "abort", "undo", "checkCurrent", "delete"}
 
 \* every disjunct is a named action over constant ranges, so that TLC labels each step with the
@@ -285,10 +289,33 @@ NextCommit ==
   \/ \E c \in Client : AbortFailed(c)
   \/ NewOidQ
   \/ CloseReopenQ
+EarlyStore(c, o, s, d) == Len(hist) < 3 /\ Store(c, o, s, d)
+\* resolution heavy: stores with stale serials and undo of changed objects
+StaleStore(c, o, s, d) == CurTid(hist, o) # 0 /\ Store(c, o, s, d)
+NextResolve ==
+  \/ \E c \in Client, m \in Metas, clk \in 1..MaxClock : Begin(c, m, clk)
+  \/ \E c \in Client, o \in Oids, s \in SerialRange, d \in Datums : EarlyStore(c, o, s, d)
+  \/ \E c \in Client, o \in Oids, s \in SerialRange, d \in Datums : StaleStore(c, o, s, d)
+  \/ \E c \in Client, t \in SerialRange : Undo(c, t)
+  \/ \E c \in Client : Vote(c)
+  \/ \E c \in Client : Finish(c)
+  \/ \E c \in Client : AbortFailed(c)
+  \/ CloseReopenQ
+\* oid-allocation heavy: stores and restores of arbitrary (also never issued) oids, aborts, reopen
+RestoreAny(c, o, d) == Restore(c, o, d, 0)
+NextOid ==
+  \/ \E c \in Client, m \in Metas, clk \in 1..MaxClock : Begin(c, m, clk)
+  \/ \E c \in Client, o \in Oids, s \in SerialRange, d \in Datums : Store(c, o, s, d)
+  \/ \E c \in Client, o \in Oids, d \in Datums : RestoreAny(c, o, d)
+  \/ \E c \in Client : Vote(c)
+  \/ \E c \in Client : Finish(c)
+  \/ \E c \in Client : Abort(c)
+  \/ NewOid
+  \/ CloseReopen
 \* undo-heavy: once two transactions are committed, transactions consist of undo calls
 NextUndo ==
   \/ \E c \in Client, m \in Metas, clk \in 1..MaxClock : Begin(c, m, clk)
-  \/ \E c \in Client, o \in Oids, s \in SerialRange, d \in Datums : (Len(hist) < 3 \/ txn.staged = <<>>) /\ Store(c, o, s, d)
+  \/ \E c \in Client, o \in Oids, s \in SerialRange, d \in Datums : EarlyStore(c, o, s, d)
   \/ \E c \in Client, t \in SerialRange : Undo(c, t)
   \/ \E c \in Client : Vote(c)
   \/ \E c \in Client : Finish(c)
